@@ -48,12 +48,19 @@ def chemical(name, ref):
     return _cache[k]
 
 
-def well_conditioned(model, T, h=1e-3):
-    """does the model's own integral agree with its values? (external-data sanity, not thermosteam logic)"""
+def well_conditioned(model, T, h=1e-3, origins=()):
+    """does the model's own integral agree with its values? (external-data sanity, not thermosteam logic)
+    origins: further lower limits from which the library's functors integrate (T_ref, Tm, Tb of the chemical): the external integral switches formula by segment,
+    so additivity is probed from the limits actually used"""
     try:
         a = model.T_dependent_property_integral(T - h, T + h) / (2 * h)
         b = model.T_dependent_property_integral_over_T(T - h, T + h) / (2 * h)
         v = model(T)
+        for T0_ in origins:
+            if T0_ is None or not (T0_ == T0_) or T0_ <= 0: continue
+            a3 = (model.T_dependent_property_integral(T0_, T + h) - model.T_dependent_property_integral(T0_, T - h)) / (2 * h)
+            b3 = (model.T_dependent_property_integral_over_T(T0_, T + h) - model.T_dependent_property_integral_over_T(T0_, T - h)) / (2 * h)
+            if not (abs(a3 - v) <= 1e-6 * abs(v) and abs(b3 - v / T) <= 1e-6 * abs(v / T)): return False
         # also from the reference temperature (this is how the functors call it): additivity at the same step
         a2 = (model.T_dependent_property_integral(298.15, T + h) - model.T_dependent_property_integral(298.15, T - h)) / (2 * h)
         b2 = (model.T_dependent_property_integral_over_T(298.15, T + h) - model.T_dependent_property_integral_over_T(298.15, T - h)) / (2 * h)
@@ -110,7 +117,7 @@ def check_pure(c, rec, case, tag, synthetic=False):
             rec.mark_nontrivial(case_hash((c.ID, ref, ph, T1, T2, tag)))
         # (c) finite differences
         for T in Ts[1:-1]:
-            if not (synthetic or well_conditioned(Cn, T)): rec.refuse('ill-conditioned database model: finite-difference clause not judged'); continue
+            if not (synthetic or well_conditioned(Cn, T, origins=(getattr(c, 'T_ref', None), getattr(c, 'Tm', None), getattr(c, 'Tb', None)))): rec.refuse('ill-conditioned database model: finite-difference clause not judged'); continue
             try:
                 h = 1e-3
                 P = Ps[-1]
